@@ -302,7 +302,7 @@ def check_normalisation(ctx, f, textvar, outer, itdef):
             tg = n.targets if isinstance(n, ast.Assign) else [n.target]
             for t in tg:
                 for e in ast.walk(t):
-                    if is_name(e, textvar):
+                    if is_name(e, textvar) and isinstance(e.ctx, ast.Store):
                         stores.append(n)
         elif isinstance(n, (ast.For, ast.With, ast.NamedExpr)):
             tg = n.target if not isinstance(n, ast.With) else None
@@ -346,7 +346,8 @@ def check_is_keyword(ctx):
     g = Guards(f.node)
     rets = [n for n in own_nodes(f.node) if isinstance(n, ast.Return)]
     stores = [n for n in own_nodes(f.node) if isinstance(n, (ast.Assign, ast.AugAssign)) and
-              any(is_name(e, p) for t in (n.targets if isinstance(n, ast.Assign) else [n.target]) for e in ast.walk(t))]
+              any(is_name(e, p) and isinstance(e.ctx, ast.Store)
+                  for t in (n.targets if isinstance(n, ast.Assign) else [n.target]) for e in ast.walk(t))]
     for r in rets:
         ok = isinstance(r.value, ast.Tuple) and len(r.value.elts) == 2 and is_name(r.value.elts[1], p) and not stores
         ctx.ob('R1.5', f'return:{src(r)}', f'{f.mod.relpath}:{r.lineno}',
